@@ -29,6 +29,11 @@ func runC30(c *core.Ctx) {
 	c.Clause("C30.tryAcquire", func() {
 		f := c.Fn(semT + ".tryAcquire")
 		as := assignsToField(f, semT+".processing")
+		if len(as) == 0 {
+			// no wholesale commit: the request is added to the components of processing in place
+			c30TryAcquireInPlace(c, f)
+			return
+		}
 		c.Need(len(as) == 1, "exactly one assignment to processing in tryAcquire")
 		a := as[0]
 		tmp := varOf(f, a.RHS)
@@ -54,22 +59,17 @@ func runC30(c *core.Ctx) {
 		c.Check(okInit && added["inter/dag.Metric.Num"] && added["inter/dag.Metric.Size"], "tmp=processing+request", "provenance", a.Stmt.Pos(),
 			"the committed value is processing with the request's Num and Size added on every path", "the value stored into processing is not processing + request (Num and Size)")
 		// guard: tmp.X <= max.X for both components
-		namer := func(e ast.Expr) string {
-			root, path := fieldPath(f, e)
-			if len(path) == 1 && varOf(f, root) == tmp {
-				return "new." + short(path[0])
+		name := func(acc c30Access) string {
+			if len(acc.Path) == 1 && acc.Root == tmp {
+				return "new." + short(acc.Path[0])
 			}
-			if len(path) == 2 && path[0] == semT+".maxProcessing" {
-				return "max." + short(path[1])
+			if len(acc.Path) == 2 && acc.Path[0] == semT+".maxProcessing" {
+				return "max." + short(acc.Path[1])
 			}
 			return ""
 		}
 		for _, comp := range []string{"Metric.Num", "Metric.Size"} {
-			want := core.ParseLinCmp("new." + comp + " - max." + comp + " <= 0")
-			ok, path := f.GuardedBy(a.Pt, func(ft core.Fact) bool {
-				lc, ok := core.NormLinCmp(f.Info(), ft, namer)
-				return ok && lc.Equal(want)
-			})
+			ok, path := c30Guarded(f, a.Pt, "new."+comp+" - max."+comp+" <= 0", name)
 			c.Check(ok, "commit guarded by "+comp+"<=max", "T4 GuardedBy", a.Stmt.Pos(),
 				"processing is updated only on the edge where new."+comp+" <= max."+comp,
 				"processing can be updated without new."+comp+" <= max."+comp+" having been established: path "+f.DescribePath(path))
@@ -94,22 +94,18 @@ func runC30(c *core.Ctx) {
 			ok, path := f.MustPassBetween(w.Pt, core.Points(tryCalls), w.Pt)
 			c.Check(ok, "re-evaluate tryAcquire after wake", "T2 Dominates (loop)", w.Pos(), "every path from Wait back to Wait passes tryAcquire", "a path from Wait back to Wait skips tryAcquire: "+f.DescribePath(path))
 			// (2) capacity refusal: the wait is reachable only when the request fits the capacity
-			namer := func(e ast.Expr) string {
-				root, path := fieldPath(f, e)
-				if len(path) == 1 && varOf(f, root) == weight {
-					return "req." + short(path[0])
+			// (the comparison may be written in Acquire or in a boolean helper it calls)
+			name := func(acc c30Access) string {
+				if len(acc.Path) == 1 && acc.Root != nil && acc.Root == weight {
+					return "req." + short(acc.Path[0])
 				}
-				if len(path) == 2 && path[0] == semT+".maxProcessing" {
-					return "max." + short(path[1])
+				if len(acc.Path) == 2 && acc.Path[0] == semT+".maxProcessing" {
+					return "max." + short(acc.Path[1])
 				}
 				return ""
 			}
 			for _, comp := range []string{"Metric.Num", "Metric.Size"} {
-				want := core.ParseLinCmp("req." + comp + " - max." + comp + " <= 0")
-				ok, path := f.GuardedBy(w.Pt, func(ft core.Fact) bool {
-					lc, ok := core.NormLinCmp(f.Info(), ft, namer)
-					return ok && lc.Equal(want)
-				})
+				ok, path := c30Guarded(f, w.Pt, "req."+comp+" - max."+comp+" <= 0", name)
 				c.Check(ok, "no wait for over-capacity "+comp, "T4 GuardedBy", w.Pos(),
 					"Wait is reached only when req."+comp+" <= max."+comp+" (larger requests are refused)",
 					"Wait reachable with req."+comp+" > max."+comp+": "+f.DescribePath(path))
@@ -129,16 +125,14 @@ func runC30(c *core.Ctx) {
 		n := 0
 		for _, name := range []string{"Release", "Terminate"} {
 			f := c.Fn(semT + "." + name)
-			bc := f.CallsTo("sync.Cond.Broadcast")
+			// a Broadcast made by a helper that always broadcasts counts as a Broadcast
+			bc := f.SitesMust(func(cs *core.CallSite) bool { return cs.Name == "sync.Cond.Broadcast" }, 2)
 			for _, fld := range []string{".processing", ".maxProcessing"} {
-				for _, a := range assignments(f) {
-					_, path := fieldPath(f, a.LHS)
-					if len(path) == 0 || path[0] != semT+fld {
-						continue
-					}
+				// a state change made by a helper counts as a state change at the helper's call site
+				for _, ch := range c30StateChanges(f, semT+fld, 2) {
 					n++
-					ok, wit := f.MustPassAfter(a.Pt, core.Points(bc))
-					c.Check(ok, name+"|"+short(semT+fld), "T3 PostDominates", a.Stmt.Pos(),
+					ok, wit := f.MustPassAfter(ch.Pt, bc)
+					c.Check(ok, name+"|"+short(semT+fld), "T3 PostDominates", ch.Pos,
 						"every path from this state change to return passes cond.Broadcast",
 						"state change can reach return without Broadcast (waiters are not woken): "+f.DescribePath(wit))
 				}
@@ -150,13 +144,12 @@ func runC30(c *core.Ctx) {
 	c.Clause("C30.overrelease", func() {
 		f := c.Fn(semT + ".Release")
 		weight := f.Param(0)
-		namer := func(e ast.Expr) string {
-			root, path := fieldPath(f, e)
-			if len(path) == 1 && varOf(f, root) == weight {
-				return "rel." + short(path[0])
+		name := func(acc c30Access) string {
+			if len(acc.Path) == 1 && acc.Root != nil && acc.Root == weight {
+				return "rel." + short(acc.Path[0])
 			}
-			if len(path) == 2 && path[0] == semT+".processing" {
-				return "held." + short(path[1])
+			if len(acc.Path) == 2 && acc.Path[0] == semT+".processing" {
+				return "held." + short(acc.Path[1])
 			}
 			return ""
 		}
@@ -169,11 +162,7 @@ func runC30(c *core.Ctx) {
 			}
 			nSub++
 			for _, comp := range []string{"Metric.Num", "Metric.Size"} {
-				want := core.ParseLinCmp("rel." + comp + " - held." + comp + " <= 0")
-				ok, wit := f.GuardedBy(a.Pt, func(ft core.Fact) bool {
-					lc, ok := core.NormLinCmp(f.Info(), ft, namer)
-					return ok && lc.Equal(want)
-				})
+				ok, wit := c30Guarded(f, a.Pt, "rel."+comp+" - held."+comp+" <= 0", name)
 				c.Check(ok, "subtract "+short(path[1])+" guarded by "+comp, "T4 GuardedBy", a.Stmt.Pos(), "held amount is reduced only when held."+comp+" >= released."+comp, "subtraction reachable with held."+comp+" < released."+comp+" (would wrap): "+f.DescribePath(wit))
 			}
 		}
@@ -194,11 +183,7 @@ func runC30(c *core.Ctx) {
 				return ok && cm.Op == token.NEQ && fieldNameOf(f, cm.L) == semT+".warning" && core.IsNil(f.Info(), cm.R)
 			})
 			c.Check(ok, "warning nil-guarded", "T4 GuardedBy", warn[0].Pos(), "warning is called only when non-nil", "warning may be called when nil: "+f.DescribePath(wit))
-			want1 := core.ParseLinCmp("rel.Metric.Num - held.Metric.Num <= 0")
-			okZ, _ := f.GuardedBy(zero[0].Pt, func(ft core.Fact) bool {
-				lc, ok := core.NormLinCmp(f.Info(), ft, namer)
-				return ok && lc.Equal(want1)
-			})
+			okZ, _ := c30Guarded(f, zero[0].Pt, "rel.Metric.Num - held.Metric.Num <= 0", name)
 			c.Check(!okZ, "zeroing not on the fits edge", "T4 GuardedBy", zero[0].Stmt.Pos(), "the reset is not taken on the edge where the release fits", "processing is reset on the edge where the release fits the held amount")
 		}
 	})
@@ -212,8 +197,10 @@ func runC30(c *core.Ctx) {
 			}
 		}
 		ok := len(zero) == 1
-		if ok {
-			ok, _ = f.MustPassBefore([]core.Point{zero[0].Pt}, f.ReturnPoints()[0])
+		for _, rp := range f.ReturnPoints() {
+			if ok {
+				ok, _ = f.MustPassBefore([]core.Point{zero[0].Pt}, rp)
+			}
 		}
 		c.Check(ok, "Terminate zeroes capacity", "T2 Dominates", f.Pos(), "maxProcessing is set to the zero Metric on every path (every later non-empty request exceeds it and is refused)", "Terminate does not zero maxProcessing on every path")
 	})
@@ -327,7 +314,7 @@ func checkTimedWait(c *core.Ctx, f *core.FuncInfo, w *core.CallSite) {
 		}
 	}
 	dl := condPoints(f, func(e ast.Expr) bool {
-		if mentionsCall(f, e, "time.Now", "time.Since", "time.Until") {
+		if c30MayCall(f, e, 2, "time.Now", "time.Since", "time.Until") {
 			return true
 		}
 		for v := range wakerVars {
